@@ -273,6 +273,9 @@ func c14Accesses(r *Run, rep *core.Report, reach map[*ssa.Function]bool) {
 					if r.M.LockEventOf(ref) != nil || r.M.LockEventOfCall(y) != nil {
 						continue
 					}
+					if atomicOnlyCallee(y, v) {
+						continue // a helper that does nothing with the address but atomic operations on it
+					}
 					rep.Undecided("C14.A1", fmt.Sprintf("%s address of %s passed to %s", fn(f), a.Key(), core.CalleeID(y)), r.P.InstrPos(ref), "address of a shared word escapes to a callee; accesses through it are not tracked")
 				case *ssa.Phi:
 				default:
@@ -473,6 +476,41 @@ func c14Settings(r *Run, rep *core.Report, reach map[*ssa.Function]bool) {
 				"atomic.Value sees more than one concrete type ("+strings.Join(ts, ", ")+"): Store of an inconsistent type panics / Load assertion fails")
 		}
 	}
+}
+
+// atomicOnlyCallee: the call hands the address to an in-module function whose every use of that parameter is as the
+// address operand of an atomic load.
+func atomicOnlyCallee(c ssa.CallInstruction, addr ssa.Value) bool {
+	cal := core.Callee(c)
+	if cal == nil || cal.Blocks == nil {
+		return false
+	}
+	for i, a := range c.Common().Args {
+		if a != addr {
+			continue
+		}
+		if i >= len(cal.Params) || cal.Params[i].Referrers() == nil {
+			return false
+		}
+		n := 0
+		for _, ref := range *cal.Params[i].Referrers() {
+			switch y := ref.(type) {
+			case *ssa.DebugRef:
+			case ssa.CallInstruction:
+				// loads only: a helper that writes the word would hide a write from the protocol rules
+				if op, a2, ok := core.AtomicOp(y); !ok || op != "Load" || a2 != ssa.Value(cal.Params[i]) {
+					return false
+				}
+				n++
+			default:
+				return false
+			}
+		}
+		if n == 0 {
+			return false
+		}
+	}
+	return true
 }
 
 func isTypeParam(t types.Type) bool {
